@@ -8,6 +8,11 @@ import os
 
 HERE = os.path.dirname(os.path.dirname(os.path.abspath(__file__)))
 TABLE = os.path.join(HERE, "site_inventory.json")
+PROCESS_WIDE = {("os", "chdir"), ("os", "putenv"), ("os", "umask"), ("locale", "setlocale"), ("random", "seed"),
+                ("warnings", "filterwarnings"), ("warnings", "simplefilter"), ("logging", "basicConfig"),
+                ("signal", "signal"), ("atexit", "register"), ("gc", "disable"), ("gc", "enable"), ("gc", "set_threshold"),
+                ("importlib", "reload"), ("threading", "setprofile"), ("threading", "settrace"),
+                ("threading", "stack_size"), ("resource", "setrlimit")}
 MUTABLE_CALLS = {"dict", "list", "set", "defaultdict", "OrderedSet", "local", "StringSerializableRegistry", "Index"}
 
 
@@ -86,6 +91,10 @@ class Scan(ast.NodeVisitor):
             self.row("print", node)
         if name in ("now", "today", "time") and isinstance(f, ast.Attribute):
             self.row("clock", node)
+        if isinstance(f, ast.Attribute) and isinstance(f.value, ast.Name) and (f.value.id, name) in PROCESS_WIDE or \
+                (isinstance(f, ast.Attribute) and isinstance(f.value, ast.Name) and f.value.id == "sys" and name.startswith("set")):
+            # interpreter- / process-wide settings: shared by every thread and every later call
+            self.row("process-wide-setter", node)
         self.generic_visit(node)
 
     def visit_Attribute(self, node):
